@@ -41,7 +41,7 @@ func FuzzVM(f *testing.F) {
 			return
 		}
 		c := FuzzCase(data)
-		if _, err := Monitor(c); err != nil {
+		if _, err := monitor(c, 30_000, 1_500_000); err != nil {
 			t.Fatalf("C12 violation: %v\nFUZZ-CASE %s", err, ReplayEnvelope(c, err.Error()))
 		}
 	})
